@@ -95,29 +95,29 @@ theorem exec_clc : exec k (.clc :: is) ⟨regs, cf, zf, a, b⟩ = exec k is ⟨r
 theorem exec_load_a {dst base idx off : Nat} (hb : base = k.aReg) (hd1 : dst ≠ k.aReg) (hd2 : dst ≠ k.bReg)
     (h : regs idx + off < k.la) :
     exec k (.load dst base idx off :: is) ⟨regs, cf, zf, a, b⟩ = exec k is ⟨upd regs dst (a (regs idx + off)), cf, zf, a, b⟩ := by
-  simp [exec_cons, step, hb, hd1, hd2, h]
+  simp [exec_cons, step, doLoad, rd, hb, hd1, hd2, h]
 
 theorem exec_load_b {dst base idx off : Nat} (hb : base = k.bReg) (hab : k.bReg ≠ k.aReg) (hd1 : dst ≠ k.aReg) (hd2 : dst ≠ k.bReg)
     (h : regs idx + off < k.lb) :
     exec k (.load dst base idx off :: is) ⟨regs, cf, zf, a, b⟩ = exec k is ⟨upd regs dst (b (regs idx + off)), cf, zf, a, b⟩ := by
-  simp [exec_cons, step, hb, hab, hd1, hd2, h]
+  simp [exec_cons, step, doLoad, rd, hb, hab, hd1, hd2, h]
 
 theorem exec_store_a {base idx off src : Nat} (hb : base = k.aReg) (h : regs idx + off < k.la) :
     exec k (.store base idx off src :: is) ⟨regs, cf, zf, a, b⟩ = exec k is ⟨regs, cf, zf, upd a (regs idx + off) (regs src), b⟩ := by
-  simp [exec_cons, step, hb, h]
+  simp [exec_cons, step, doStore, hb, h]
 
 theorem exec_adc {dst src : Nat} (hd1 : dst ≠ k.aReg) (hd2 : dst ≠ k.bReg) :
     exec k (.adc dst src :: is) ⟨regs, cf, zf, a, b⟩ =
       exec k is ⟨upd regs dst (adcI cf (regs dst) (regs src)).1, (adcI cf (regs dst) (regs src)).2,
                  decide ((adcI cf (regs dst) (regs src)).1 = 0), a, b⟩ := by
-  simp [exec_cons, step, hd1, hd2, adcI]
+  simp [exec_cons, step, doAdc, hd1, hd2, adcI]
   rfl
 
 theorem exec_sbb {dst src : Nat} (hd1 : dst ≠ k.aReg) (hd2 : dst ≠ k.bReg) :
     exec k (.sbb dst src :: is) ⟨regs, cf, zf, a, b⟩ =
       exec k is ⟨upd regs dst (sbbI cf (regs dst) (regs src)).1, (sbbI cf (regs dst) (regs src)).2,
                  decide ((sbbI cf (regs dst) (regs src)).1 = 0), a, b⟩ := by
-  simp [exec_cons, step, hd1, hd2, sbbI]
+  simp [exec_cons, step, doSbb, hd1, hd2, sbbI]
   rfl
 
 theorem exec_inc {r : Nat} (hd1 : r ≠ k.aReg) (hd2 : r ≠ k.bReg) :
